@@ -5,10 +5,13 @@ import (
 	"lunar/engine/config"
 	lunar_messages "lunar/engine/messages"
 	"lunar/engine/metrics"
+	"lunar/engine/runner"
+	"lunar/engine/services"
 	"lunar/engine/streams"
 	"net/http"
 
 	"github.com/negasus/haproxy-spoe-go/action"
+	"github.com/negasus/haproxy-spoe-go/message"
 )
 
 // Additive export shims (build overlay only; see /verif/DESIGN.md §2.2).
@@ -55,3 +58,27 @@ func (rd *HandlingDataManager) VerifHandleApplyFlows() func(http.ResponseWriter,
 
 // VerifStream returns the engine transactions are currently served by (what processRequest reads).
 func (rd *HandlingDataManager) VerifStream() *streams.Stream { return rd.stream }
+
+// VerifNewPolicyManager builds a policy-mode manager around an existing accessor (what Setup()
+// does in policy mode, without files, doctor and exporters), so that the real message handlers
+// can be driven (additive constructor shim for C11).
+func VerifNewPolicyManager(
+	accessor *config.TxnPoliciesAccessor,
+	initial *config.PoliciesData,
+	policiesServices *services.PoliciesServices,
+) *HandlingDataManager {
+	rd := &HandlingDataManager{}
+	rd.configBuildResult = config.BuildResult{Accessor: accessor, Initial: initial}
+	rd.diagnosisWorker = runner.NewDiagnosisWorker()
+	rd.policiesServices = policiesServices
+	return rd
+}
+
+// VerifProcessRequest / VerifProcessResponse are the SPOE message handlers themselves.
+func VerifProcessRequest(msg *message.Message, rd *HandlingDataManager) (action.Actions, error) {
+	return processRequest(msg, rd)
+}
+
+func VerifProcessResponse(msg *message.Message, rd *HandlingDataManager) (action.Actions, error) {
+	return processResponse(msg, rd)
+}
